@@ -51,6 +51,16 @@ class RaceFS:
             raise FileNotFoundError(name)
         return io.BytesIO(self.files[name])
 
+    def listdir(self, dirpath):
+        """names in a directory: what is really there plus the cache files of the store"""
+        self.coop.point("listdir")
+        d = _os.path.abspath(str(dirpath))
+        names = set()
+        if _os.path.isdir(d):
+            names |= {n for n in _os.listdir(d) if not self.is_cache(n)}
+        names |= {_os.path.basename(f) for f in self.files if _os.path.dirname(f) == d}
+        return sorted(names)
+
     def replace(self, src, dst):
         self.coop.point("replace")
         src, dst = str(src), str(dst)
@@ -128,6 +138,19 @@ def make_path_class(fs):
                     return f.write(data)
             return super().write_bytes(data)
 
+        def iterdir(self):
+            for n in fs.listdir(self):
+                yield type(self)(_os.path.join(str(self), n))
+
+        def glob(self, pattern, **kw):
+            import fnmatch
+            if "/" in pattern or "**" in pattern:
+                yield from super().glob(pattern, **kw)
+                return
+            for n in fs.listdir(self):
+                if fnmatch.fnmatchcase(n, pattern):
+                    yield type(self)(_os.path.join(str(self), n))
+
         def unlink(self, missing_ok=False):
             if fs.is_cache(self):
                 fs.coop.point("unlink")
@@ -172,8 +195,31 @@ class RaceOS:
 
     unlink = remove
 
+    def listdir(self, path="."):
+        return self.fs.listdir(path)
+
     def access(self, path, mode, **kw):
         return True
 
     def makedirs(self, *a, **kw):
         return None
+
+
+class RaceGlob:
+    """stands in for the glob module, should the code under test import it"""
+
+    def __init__(self, fs):
+        self.fs = fs
+
+    def glob(self, pattern, **kw):
+        import fnmatch
+        d, pat = _os.path.split(pattern)
+        return [_os.path.join(d, n) for n in self.fs.listdir(d or ".")
+                if fnmatch.fnmatchcase(n, pat)]
+
+    def iglob(self, pattern, **kw):
+        return iter(self.glob(pattern, **kw))
+
+    def escape(self, s):
+        import glob as _g
+        return _g.escape(s)
